@@ -86,6 +86,8 @@ def make_param(eng, kind, hint):
         return eng.alloc(DictVal(FO.base(eng, T.Key, T.Real, hint), pyclass="dict"))
     if kind.startswith("model:"):
         return make_model(eng, kind.split(":", 1)[1], hint)
+    if kind.startswith("newmodel:"):
+        return make_model(eng, kind.split(":", 1)[1], hint, fresh_empty=True)
     if kind in ("real", "int", "bool", "label", "key"):
         return eng.fresh(kind, hint)
     if kind == "bassign":
@@ -102,6 +104,10 @@ def make_param(eng, kind, hint):
         return ClassRef(eng.db.classes[kind[6:]])
     if kind.startswith("const:"):
         return ast.literal_eval(kind[6:])
+    if kind == "tuple:":
+        return ()
+    if kind == "emptydict":
+        return {}
     if kind.startswith("tuple:"):
         return tuple(make_param(eng, k, hint + str(i)) for i, k in enumerate(kind[6:].split(",")))
     raise Unsupported("parameter kind %s" % kind)
@@ -236,7 +242,8 @@ def _havoc_path(eng, env, path):
     if isinstance(v, (DictVal, SetVal, PObj)):
         eng.havoc_object(v, path.replace(".", "_"))
     elif v is None or isinstance(v, str):
-        pass
+        from .values import Opaque
+        eng.write_attr(o, a, Opaque("havocked " + path))
     else:
         eng.write_attr(o, a, eng.havoc_value(v, path.replace(".", "_")))
 
@@ -346,6 +353,8 @@ def _run_path(eng, c, cl, inst, cls):
             env[p] = make_param(eng, inst[p], p)
     if a.vararg is not None and a.vararg.arg in inst:
         env[a.vararg.arg] = make_param(eng, inst[a.vararg.arg], a.vararg.arg)
+    if a.kwarg is not None and a.kwarg.arg in inst:
+        env[a.kwarg.arg] = make_param(eng, inst[a.kwarg.arg], a.kwarg.arg)
     # defaults for parameters the instance does not mention
     dframe = Frame(cl, {})
     defaults = a.defaults
